@@ -207,6 +207,23 @@ Section Blind.
     intros release d.
     exact (let_program_multi release bi bu Hops (ops_wf_all o) (evalD_store_keep_all o release) (ops_nm_all o) d).
   Qed.
+  (* after ANY top-level program prefix (function-free inputs): the well-formedness hypothesis is discharged *)
+  Theorem let_program_multi_after_prefix_all : forall release d0 d inputs prog x s C_x C_s v c1 rA cA rB cB,
+    frame_lt 0 inputs = true ->
+    let c := s_cfg (fst (run (evalD release bi bu d0) (init_session inputs) prog)) in
+    no_assign s = true -> no_assign C_s = true -> sctxs x s C_x C_s ->
+    nocc x s = true -> nocc x C_s = true -> frames_nm x (snd c) = true ->
+    evalD release bi bu d c (EAssign x s) = (Ok v, c1) ->
+    cell_free v = true ->
+    evalD release bi bu d c1 C_x = (rA, cA) ->
+    evalD release bi bu d c C_s = (rB, cB) ->
+    osame rA rB.
+  Proof.
+    intros release d0 d inputs prog x s C_x C_s v c1 rA cA rB cB Hin c Hna HnaC Hctx Hns HnC Hfn EA Hv HA HB.
+    pose proof (program_cfg_wf_all o release d0 inputs prog Hin) as Hwf. fold c in Hwf.
+    destruct c as [st fr]. cbn [snd] in Hfn. unfold cfg_wf in Hwf. cbn [fst snd] in Hwf.
+    exact (let_program_multi_all release d x s C_x C_s st fr v c1 rA cA rB cB Hwf Hna HnaC Hctx Hns HnC Hfn EA Hv HA HB).
+  Qed.
 End Blind.
 
 (* ================= the hypothesis on the text oracle is NECESSARY ================= *)
